@@ -95,4 +95,78 @@ theorem decAll_encList (S : Nat) (hS : 2 ≤ S) (vs : List Nat) :
     decAll S (encList S vs) = vs :=
   decAllFuel_encList S hS vs _ (Nat.le_refl _)
 
+/-! ### the unrolled u32 encoder -/
+
+/-- a value with exactly `k+1` groups: `enc` produces the groups, stop bit on the last -/
+theorem enc_eq_groups (S : Nat) (hS : 2 ≤ S) (k : Nat) :
+    ∀ v, v < S ^ (k + 1) → (k = 0 ∨ S ^ k ≤ v) →
+      enc S v = (List.range (k + 1)).map (fun i => v / S ^ i % S + (if i + 1 = k + 1 then S else 0)) := by
+  induction k with
+  | zero =>
+    intro v hv _
+    have hv' : v < S := by simpa using hv
+    unfold enc
+    have : ¬ (2 ≤ S ∧ S ≤ v) := by omega
+    simp [this]
+  | succ k ih =>
+    intro v hv hlow
+    have hSk : S ^ (k + 1) ≤ v := by
+      rcases hlow with h | h
+      · omega
+      · exact h
+    have hSpos : 0 < S := by omega
+    have hSle : S ≤ v := by
+      have : S ^ 1 ≤ S ^ (k + 1) := Nat.pow_le_pow_right hSpos (by omega)
+      simp at this; omega
+    have hdiv : v / S < S ^ (k + 1) := by
+      apply Nat.div_lt_of_lt_mul
+      rw [Nat.pow_succ] at hv
+      rw [Nat.mul_comm]; exact hv
+    have hlow' : k = 0 ∨ S ^ k ≤ v / S := by
+      right
+      rw [Nat.le_div_iff_mul_le hSpos, ← Nat.pow_succ]; exact hSk
+    have ih' := ih (v / S) hdiv hlow'
+    rw [enc, dif_pos ⟨hS, hSle⟩, ih', List.range_succ_eq_map (n := k + 1)]
+    simp only [List.map_cons, List.map_map, Nat.pow_zero, Nat.div_one]
+    have : ¬ (0 + 1 = k + 1 + 1) := by omega
+    simp [this]
+    intro a _
+    rw [Nat.div_div_eq_div_mul, Nat.pow_succ, Nat.mul_comm]
+
+/-- with the thresholds the code has today, the unrolled encoder agrees with the loop encoder on
+every `u32` (this is where a moved threshold breaks the proof) -/
+theorem serializeU32_eq_enc (v : Nat) (hv : v < 2 ^ 32) :
+    serializeU32 Gen.Postings.VINT32_LADDER Gen.Postings.VINT32_LAST_BYTES Gen.Postings.VINT32_RADIX
+      Gen.Postings.VINT32_STOP_BIT v = enc 128 v := by
+  have hl : Gen.Postings.VINT32_LADDER = [(128, 1), (128 ^ 2, 2), (128 ^ 3, 3), (128 ^ 4, 4)] := by decide
+  have h5 : Gen.Postings.VINT32_LAST_BYTES = 5 := by decide
+  have hr : Gen.Postings.VINT32_RADIX = 128 := by decide
+  have hs : Gen.Postings.VINT32_STOP_BIT = 128 := by decide
+  unfold serializeU32
+  rw [hl, h5, hr, hs]
+  by_cases h1 : v < 128
+  · rw [enc_eq_groups 128 (by omega) 0 v (by omega) (Or.inl rfl)]
+    simp [ladderBytes, h1]
+  · by_cases h2 : v < 128 ^ 2
+    · rw [enc_eq_groups 128 (by omega) 1 v (by omega) (Or.inr (by omega))]
+      simp [ladderBytes, h1, h2]
+    · by_cases h3 : v < 128 ^ 3
+      · rw [enc_eq_groups 128 (by omega) 2 v (by omega) (Or.inr (by omega))]
+        simp [ladderBytes, h1, h2, h3]
+      · by_cases h4 : v < 128 ^ 4
+        · rw [enc_eq_groups 128 (by omega) 3 v (by omega) (Or.inr (by omega))]
+          simp [ladderBytes, h1, h2, h3, h4]
+        · rw [enc_eq_groups 128 (by omega) 4 v (by omega) (Or.inr (by omega))]
+          simp [ladderBytes, h1, h2, h3, h4]
+
+theorem enc_length_pos (S n : Nat) : 0 < (enc S n).length :=
+  List.length_pos_iff.mpr (enc_ne_nil S n)
+
+theorem readU32_enc (S : Nat) (hS : 2 ≤ S) (maxLen v : Nat) (rest : List Nat)
+    (hlen : (enc S v).length ≤ maxLen) :
+    readU32 S maxLen (enc S v ++ rest) = some (v, (enc S v).length) := by
+  unfold readU32
+  rw [List.take_append, List.take_of_length_le hlen, dec_enc S hS]
+  simp
+
 end TantivyModel.VInt
